@@ -33,6 +33,7 @@ def run(ctx):
     ring(ctx, P)
     subkey_search(ctx, P)
     pkesk_identity(ctx, P)
+    checksum_helpers(ctx, P)
 
 
 def psk_constructs(b):
@@ -191,6 +192,24 @@ def subkey_search(ctx, P):
                   not bad, function=b.path, site=site(b, bad[0][0]) if bad else None, missing=('unconditional or unrelated early exit from the subkey loop at %s' % [site(b, u) for u, v in bad]) if bad else None)
 
 
+def checksum_helpers(ctx, P):
+    """The helpers the plausibility rules rely on really compare: checksum::simple returns Ok only after a rejecting comparison of
+    the octets it was given with calculate_simple of the data; the running sum keeps 16 bits of the octet sum."""
+    b = ctx.body('crypto::checksum::simple')
+    if b is not None:
+        oks = ok_exit_blocks(b)
+        gs = [g for g, _ in guard_switches(b, oks, [r'param:1$', r'call:crypto::checksum::calculate_simple$'])]
+        ok, wit = must_pass(b, oks, gs) if gs else (False, None)
+        ctx.check(P + ':checksum:simple-compares', 'R-dom', 'checksum::simple returns Ok only after comparing the given two octets with calculate_simple(data) (rejecting)', ok, function=b.path,
+                  witness=fmt_path(b, wit) if wit else None)
+        ctx.check(P + ':checksum:simple-data-arg', 'origin', 'calculate_simple is applied to the data parameter',
+                  any(has_origin(b.operand_origins(t['args'][0]), r'param:2$') for i, t in b.calls(r'calculate_simple$')), function=b.path)
+    b = ctx.body('<crypto::checksum::SimpleChecksum as std::hash::Hasher>::write')
+    if b is not None:
+        masks = [o['k']['v'] for blk in b.blocks for st in blk['s'] if st['r']['k'] == 'bin' and st['r']['op'] == 'BitAnd' for o in st['r']['o'] if 'k' in o and 'v' in o['k']]
+        ctx.check(P + ':checksum:sum-mod-65536', 'R-table', 'the simple checksum is the octet sum modulo 65536 (mask 0xffff)', masks == [0xFFFF] and bool(b.calls(r'Iterator::sum$')), function=b.path, table=masks)
+
+
 def pkesk_identity(ctx, P):
     b = ctx.body('packet::public_key_encrypted_session_key::PublicKeyEncryptedSessionKey::match_identity')
     if b is None:
@@ -200,6 +219,12 @@ def pkesk_identity(ctx, P):
     miss = [n for n in need if not any(x.endswith(n) for x in names)]
     ctx.check(P + ':pkesk:match-identity', 'R-who', 'PKESK::match_identity compares the recipient field with the key\'s own key id / fingerprint, honouring wildcards',
               not miss, function=b.path, missing=miss)
+    # ... by full structural equality of the identifier types (a length or prefix comparison would match foreign keys)
+    eqs = sorted(set(t['f'].get('selfty', '') for i, t in b.calls(r'PartialEq::(eq|ne)$')))
+    want = any('Fingerprint' in x for x in eqs) and any('KeyId' in x for x in eqs)
+    der = [ctx.f.body(x) for x in ('<types::fingerprint::Fingerprint as std::cmp::PartialEq>::eq', '<types::key_id::KeyId as std::cmp::PartialEq>::eq')]
+    ctx.check(P + ':pkesk:match-identity-full-equality', 'R-who', 'match_identity compares KeyId with KeyId and Fingerprint with Fingerprint through their derived equality',
+              want and all(d is not None and d.get('derived') for d in der), function=b.path, table=eqs)
     # unknown versions never match: the otherwise arm returns const false
     dom = b.dominators()
     ok = False
